@@ -100,7 +100,12 @@ func UnmarshalOrdered(data []byte) (*orderedmap.OrderedMap[string, any], error) 
 	if err != nil {
 		return nil, err
 	}
-	return val.(*orderedmap.OrderedMap[string, any]), nil
+	// a log line must be a JSON object; a scalar or an array at top level is not a log entry
+	entry, ok := val.(*orderedmap.OrderedMap[string, any])
+	if !ok {
+		return nil, fmt.Errorf("log line is not a JSON object")
+	}
+	return entry, nil
 }
 
 func parseValue(dec *json.Decoder) (any, error) {
